@@ -164,6 +164,24 @@ def run(ctx):
                "basematcher_init", MT + ".BaseMatcher",
                "the given list is kept by reference; a new one only when "
                "none is given")
+    # the other matcher classes: a section matcher is always given the list
+    # (no default), the schema matcher starts the one list of the load, and
+    # the overriding matcher hands the same list on to its children
+    crosscheck(ctx, "C16.R5", MT + ".SectionMatcher.__init__", REF,
+               "sectionmatcher_init", MT + ".SectionMatcher",
+               "the list is a required argument, handed to the base class")
+    crosscheck(ctx, "C16.R5", MT + ".SchemaMatcher.__init__", REF,
+               "schemamatcher_init", MT + ".SchemaMatcher",
+               "a new list per schema matcher")
+    crosscheck(ctx, "C16.R5", "ZConfig.cmdline.MatcherMixin."
+               "createChildMatcher", REF, "mixin_createChildMatcher",
+               "ZConfig.cmdline.MatcherMixin",
+               "the overriding child matcher gets the same handler list")
+    # schema order of a derived type's items: the base's items keep their
+    # places (a re-created '+' item replaces the original where it stood)
+    crosscheck(ctx, "C16.R4", "ZConfig.info.SchemaType.deriveSectionType",
+               "ref_info.py", "deriveSectionType", "ZConfig.info.SchemaType",
+               "items of a derived type in the base's order")
     crosscheck(ctx, "C16.R4", MT + ".BaseMatcher.finish", REF, "finish",
                MT + ".BaseMatcher",
                "closing a section moves no handler entries: they are "
